@@ -74,6 +74,8 @@ type Case struct {
 	IdleMs  int    `json:"idleMs,omitempty"`
 	// hist
 	Hist []HOp `json:"hist,omitempty"`
+	// e2eshape: the request shapes to send (empty = all)
+	Shapes []string `json:"shapes,omitempty"`
 }
 
 // Obs is what the Lean judge reads.
@@ -765,15 +767,77 @@ type realOut struct {
 	Skipped string
 }
 
-func spin(g *gateway, conc int, dur time.Duration, resync bool) (calls, admitted int64) {
+// acquire is one request under the gateway's schema, the way the dispatcher does it: look the limiter up, TryAcquire.
+// problem != "" when the lookup yields nothing usable: no limiter (nil), a panic, or - for a configured token bucket
+// reached through UpstreamLimiter - the system-default exempt limiter.
+func (g *gateway) acquire() (ok bool, problem string) {
+	msg, panicked := rig.Recover(func() {
+		fc := g.current()
+		if fc == nil {
+			problem = "the lookup of the schema's limiter returned nil"
+			return
+		}
+		if g.path == "sync" && fc == flowcontrol.DefaultFlowControl {
+			problem = "a request under the configured token-bucket schema is served by the system-default exempt limiter (the schema's limiter is gone)"
+			return
+		}
+		ok = fc.TryAcquire()
+	})
+	if panicked {
+		return false, "looking up / acquiring the schema's limiter panicked: " + msg
+	}
+	return ok, problem
+}
+
+// served checks the clause "a configured token bucket is served by a token bucket with its numbers" on the limiter a
+// request would get right now.
+func (g *gateway) served() (problem string) {
+	msg, panicked := rig.Recover(func() {
+		fc := g.current()
+		if fc == nil {
+			problem = "the lookup of the schema's limiter returned nil"
+			return
+		}
+		inner := fc
+		if g.path == "sync" {
+			inner = remote.VerifC06Inner(fc)
+		}
+		tb, ok := inner.(flowcontrol.TokenBucketFlowControl)
+		if !ok || inner.Type() != proxyv1alpha1.TokenBucket || int(tb.QPS()) != g.qps || int(tb.Burst()) != g.burst {
+			problem = fmt.Sprintf("the schema configured as token bucket (qps=%d, burst=%d) is served by [%s]", g.qps, g.burst, inner.String())
+		}
+	})
+	if panicked {
+		return "looking up the schema's limiter panicked: " + msg
+	}
+	return problem
+}
+
+func spin(g *gateway, conc int, dur time.Duration, resync bool) (calls, admitted int64, problem string) {
 	var stop int32
 	var wg sync.WaitGroup
+	var pmu sync.Mutex
+	note := func(p string) {
+		if p == "" {
+			return
+		}
+		pmu.Lock()
+		if problem == "" {
+			problem = p
+		}
+		pmu.Unlock()
+	}
 	for i := 0; i < conc; i++ {
 		wg.Add(1)
 		go func() {
 			defer wg.Done()
 			for atomic.LoadInt32(&stop) == 0 {
-				if g.current().TryAcquire() {
+				ok, p := g.acquire()
+				if p != "" {
+					note(p)
+					time.Sleep(time.Millisecond)
+				}
+				if ok {
 					atomic.AddInt64(&admitted, 1)
 				}
 				atomic.AddInt64(&calls, 1)
@@ -784,7 +848,11 @@ func spin(g *gateway, conc int, dur time.Duration, resync bool) (calls, admitted
 		// the same (qps, burst) presented again and again, in every way an unchanged spec can arrive
 		end := time.Now().Add(dur)
 		for v := 0; time.Now().Before(end); v++ {
-			g.reconfigure(g.qps, g.burst, v%3)
+			_, perr := rig.Recover(func() { g.reconfigure(g.qps, g.burst, v%3) })
+			if perr {
+				note("a re-sync of the unchanged schema panicked")
+			}
+			note(g.served())
 			time.Sleep(time.Millisecond)
 		}
 	} else {
@@ -792,7 +860,8 @@ func spin(g *gateway, conc int, dur time.Duration, resync bool) (calls, admitted
 	}
 	atomic.StoreInt32(&stop, 1)
 	wg.Wait()
-	return calls, admitted
+	note(g.served())
+	return calls, admitted, problem
 }
 
 func runReal(c *rig.Ctx, cs Case) (out realOut, f *failure) {
@@ -802,8 +871,13 @@ func runReal(c *rig.Ctx, cs Case) (out realOut, f *failure) {
 		defer g.close()
 		switch cs.Pattern {
 		case "spin", "resync":
-			out.Calls, out.Admitted = spin(g, cs.Conc, time.Duration(cs.DurMs)*time.Millisecond, cs.Pattern == "resync")
+			var problem string
+			out.Calls, out.Admitted, problem = spin(g, cs.Conc, time.Duration(cs.DurMs)*time.Millisecond, cs.Pattern == "resync")
 			out.T1 = mono() // after the last call returned
+			if problem != "" {
+				f = &failure{"judge", "c06.inforce", fmt.Sprintf("qps=%d burst=%d, pattern %s via %s: %s", cs.QPS, cs.Burst, cs.Pattern, cs.Path, problem), out, nil}
+				return
+			}
 		case "idle":
 			// a fresh bucket owes its whole burst
 			fresh := int64(0)
@@ -935,6 +1009,8 @@ func runCase(c *rig.Ctx, cs Case, record bool) bool {
 		_, f = runReal(c, cs)
 	case "e2e":
 		_, f = runE2E(c, cs)
+	case "e2eshape":
+		f = runShapes(c, cs)
 	case "hist":
 		f = checkHist(c, cs)
 		if f != nil && record && len(cs.Hist) > 1 {
@@ -1034,7 +1110,9 @@ func main() {
 				go func() {
 					defer inner.Done()
 					defer func() { <-sem }()
-					runCase(c, cs, true)
+					if msg, panicked := rig.Recover(func() { runCase(c, cs, true) }); panicked {
+						c.Fail(rig.Failure{Kind: "diff", Class: "c06.harness-panic", What: "the harness itself panicked in a wall-clock case: " + msg, Case: cs})
+					}
 				}()
 			}
 			inner.Wait()
